@@ -115,13 +115,30 @@ impl Check for C13 {
     }
 
     fn run(&self, run: &Run) {
-        let q = run.tier.quick();
+        let deep = !run.tier.quick();
+        let q = false;
         run.rule("images with all-distinct texels x extend x filter x alpha x CTM x source transform are drawn with Src over the whole surface; every fully covered pixel must equal the reference sampler (M-IMG) evaluated at the image-space position of the pixel centre, admitting the neighbouring texel / 1/16 weight step within the fixed-point slack; draw_image_at / draw_image_with_size_at at integer and fractional positions and sizes; non-trivial = scene exercises bilinear interpolation");
         run.assume("coordinate slack (|x|+|y|+2) * 1.5 * 2^-16 * (1 + |M|) + 2e-6 * (1 + |p|) * (1 + |M|) for the 16.16 conversion of the matrix coefficients and the f32 matrix products; the 4-bit bilinear formula with truncating shifts is taken as the property's definition");
         let imgs: Vec<(i32, i32)> = if q { vec![(1, 1), (3, 2), (2, 3)] } else { vec![(1, 1), (2, 2), (3, 2), (2, 3), (4, 1)] };
         let surfaces: Vec<(i32, i32)> = if q { vec![(6, 5)] } else { vec![(6, 5), (9, 7)] };
-        let ctm = ctms();
-        let sx = src_xfs(q);
+        let mut ctm = ctms();
+        let mut sx = src_xfs(q);
+        let mut imgs = imgs;
+        if deep {
+            ctm.extend([[1.5, 0., 0., 1.5, -1., -1.], [0.5, 0., 0., 0.25, 0.5, 0.5], [0.9396926, -0.34202015, 0.34202015, 0.9396926, 2., 1.]]);
+            for ty in -7..=7 {
+                for tx in -7..=7 {
+                    if tx == -7 || tx == 7 || ty == -7 || ty == 7 || tx == 5 || ty == -6 {
+                        sx.push([1., 0., 0., 1., tx as f32, ty as f32]);
+                    }
+                }
+            }
+            for k in 0..8 {
+                sx.push([1., 0., 0., 1., 0.125 + k as f32 * 0.125, -0.0625 * k as f32]);
+            }
+            sx.extend([[1.25, 0., 0., 0.8, 0.1, 0.1], [0., -1., 1., 0., 0., 4.], [-1., 0., 0., -1., 5., 4.], [0.7071068, 0.7071068, -0.7071068, 0.7071068, 1., 1.], [4., 0., 0., 4., 0., 0.], [0.125, 0., 0., 0.125, 0., 0.]]);
+            imgs.extend([(3, 3), (5, 2), (1, 4)]);
+        }
         let alphas: Vec<f32> = vec![1.0, 0.5, 0.0];
         run.bound("fills", format!("{} images x 2 extend x 2 filter x 3 alphas x {} CTMs x {} source transforms x {} surfaces", imgs.len(), ctm.len(), sx.len(), surfaces.len()));
         run.par(ctm.len() * sx.len(), |s, l| {
